@@ -503,4 +503,58 @@ C17_Step(s, e) ==
            /\ (AllOK(StatusWrites(e, "ERS")) /\ FullSync(e)) =>
                 (r2.conds.ReconcileError.true \/ (r2.conds.PodsCleanupDone.present /\ ~r2.conds.PodsCleanupDone.true))
 
+
+-----------------------------------------------------------------------------
+(* C19 - kubectl-eds commands change only what they document; the controller obeys them *)
+
+\* everything but the ExtendedDaemonSet d.key is as before
+RestSame(s, t, key) ==
+    /\ t.nodes = s.nodes /\ t.pods = s.pods /\ t.settings = s.settings /\ t.ptmpl = s.ptmpl
+    /\ { x \in EDSs(t) : x.key # key } = { x \in EDSs(s) : x.key # key }
+
+C19_Cmd(s, e) ==
+    (e.ev = "Cmd" /\ HasEDS(s, e.key) /\ HasEDS(e.state, e.key)) =>
+      LET d == EDSOf(s, e.key)  d2 == EDSOf(e.state, e.key)  cmd == e.args.v
+          refused   == e.res.err /\ Writes(e) = {}
+          unchanged == e.state.nodes = s.nodes /\ e.state.pods = s.pods /\ e.state.rs = s.rs /\ e.state.eds = s.eds
+          canaryOK  == d.strat.canary /\ d.hasCanary
+          onePatch  == Cardinality(Writes(e)) = 1 /\ \A w \in Writes(e) : w.kind = "EDS" /\ w.verb = "patch" /\ w.ns = d.ns /\ w.name = d.name /\ w.ok
+      IN /\ NT(<<"C19", cmd, e.res.err>>)
+         /\ refused => unchanged
+         /\ ~e.res.err =>
+              CASE cmd = "canary-pause" ->
+                     /\ canaryOK /\ onePatch /\ RestSame(s, e.state, d.key) /\ e.state.rs = s.rs
+                     /\ d2 = [d EXCEPT !.cPaused = TRUE, !.cUnpaused = FALSE]
+                [] cmd = "canary-unpause" ->
+                     /\ canaryOK /\ onePatch /\ RestSame(s, e.state, d.key) /\ e.state.rs = s.rs
+                     /\ d2 = [d EXCEPT !.cPaused = FALSE, !.cUnpaused = TRUE]
+                [] cmd = "canary-validate" ->
+                     /\ d.hasCanary /\ onePatch /\ RestSame(s, e.state, d.key) /\ e.state.rs = s.rs
+                     /\ d2 = [d EXCEPT !.cValid = d.canaryRS]
+                [] cmd = "canary-fail" ->
+                     /\ canaryOK /\ e.state.eds = s.eds /\ RestSame(s, e.state, d.key)
+                     /\ Cardinality(Writes(e)) = 1 /\ \A w \in Writes(e) : w.kind = "ERS" /\ w.verb = "status" /\ w.id = d.canaryRS /\ w.ok
+                     /\ \A x \in RSs(s) : x.id # d.canaryRS => x \in RSs(e.state)
+                     /\ HasRS(s, d.canaryRS) /\ HasRS(e.state, d.canaryRS) =>
+                          LET x == RSOf(s, d.canaryRS)  x2 == RSOf(e.state, d.canaryRS) IN
+                            /\ x2.conds.CanaryFailed.true
+                            /\ [x2 EXCEPT !.conds = [@ EXCEPT !.CanaryFailed = x.conds.CanaryFailed]] = x
+                [] cmd = "ru-pause" ->
+                     /\ ~d.hasCanary /\ onePatch /\ RestSame(s, e.state, d.key) /\ e.state.rs = s.rs /\ d2 = [d EXCEPT !.ruPaused = TRUE]
+                [] cmd = "ru-unpause" ->
+                     /\ ~d.hasCanary /\ onePatch /\ RestSame(s, e.state, d.key) /\ e.state.rs = s.rs /\ d2 = [d EXCEPT !.ruPaused = FALSE]
+                [] cmd = "freeze" ->
+                     /\ ~d.hasCanary /\ onePatch /\ RestSame(s, e.state, d.key) /\ e.state.rs = s.rs /\ d2 = [d EXCEPT !.frozen = TRUE]
+                [] cmd = "unfreeze" ->
+                     /\ ~d.hasCanary /\ onePatch /\ RestSame(s, e.state, d.key) /\ e.state.rs = s.rs /\ d2 = [d EXCEPT !.frozen = FALSE]
+                [] OTHER -> FALSE
+         \* a command whose precondition does not hold refuses to act
+         /\ (cmd \in {"canary-pause", "canary-unpause", "canary-fail"} /\ ~canaryOK) => refused
+         /\ (cmd = "canary-validate" /\ ~d.hasCanary) => refused
+         /\ (cmd \in {"ru-pause", "ru-unpause", "freeze", "unfreeze"} /\ d.hasCanary) => refused
+
+\* the controller's next reconciles interpret the commands as documented: the state function (pause -> Canary Paused,
+\* unpause -> Canary), promotion of exactly the validated replica set, rollback after fail
+C19_Step(s, e) == C19_Cmd(s, e) /\ C14_EDS(s, e) /\ C05_Step(s, e) /\ C07_Step(s, e)
+
 =============================================================================
